@@ -53,6 +53,7 @@ def one_history(rep, rng, dev, hid):
     cfg = dict(id=hid, adaptive=adaptive, dt_init=dt_init, dt_max=dt_max, window=window, mult=mult, max_retries=max_retries,
                script=script[:nsteps + 2])
     steps = []
+    dmax_bad = []
     state = {"step": -1, "attempt": 0}
     raised = None
     with tempfile.TemporaryDirectory(prefix="pyt_c12_") as td:
@@ -88,6 +89,13 @@ def one_history(rep, rng, dev, hid):
             nvals = len(solver.d_psi_sq_vals)
             res = orig_update(st, running_state, dt, **kw)
             d = solver.d_psi_sq_vals[-1] if len(solver.d_psi_sq_vals) > nvals else 0.0
+            if len(solver.d_psi_sq_vals) > nvals:
+                # Model.Update.dmax: the recorded value is max over sites of | |psi'|^2 - |psi|^2 |
+                dm = float(np.max(np.abs(np.abs(np.asarray(res.psi)) ** 2 - np.abs(np.asarray(kw["psi"])) ** 2)))
+                amp = float(np.max(np.abs(np.asarray(res.psi))) ** 2) + 1.0
+                # both are differences of nearly equal squared moduli: rounding is absolute in the scale of |psi|^2
+                if abs(dm - d) > 1e-9 * max(dm, d) + 1e-10 * amp and len(dmax_bad) < 3:
+                    dmax_bad.append({"step": int(st["step"]), "recorded": float(d), "recomputed": dm})
             steps.append(dict(step=st["step"], tentative_before=tent, dt_used=float(res.dt), d=float(d),
                               attempts=list(state["dts"]), tentative_after=float(solver.tentative_dt),
                               refusals=state["refused"]))
@@ -103,6 +111,9 @@ def one_history(rep, rng, dev, hid):
             raised = str(e)[:80]
             steps.append(dict(step=state["step"], tentative_before=float(solver.tentative_dt), dt_used=None, d=0.0,
                               attempts=list(state["dts"]), refusals=state.get("refused", 0)))
+    for b in dmax_bad:
+        rep.not_shown("correspondence: the recorded max |d|psi|^2| differs from Model.Update.dmax of the step's input and result",
+                      {**{k: cfg[k] for k in ("adaptive", "window")}, **b})
     return cfg, steps, raised
 
 
